@@ -69,7 +69,7 @@ def make_options(rng, sysd, workdir, res, allow=("plain", "c_full", "c_prefix", 
     b = round(rng.uniform(3.5, 6.0), 3)
     box = np.array([b, b, b]) if rng.random() < 0.6 else np.array([round(rng.uniform(3.5, 6.0), 3) for _ in range(3)])
     if mode == "dens":
-        kw["density"] = round(rng.uniform(50, 300), 3)
+        kw["density"] = round(min(rng.uniform(50, 300), T.total_mass(sysd) * 1.6605410 / 2.6 ** 3), 3)
         info["box_src"] = "density"
     elif mode in ("c_full", "c_prefix", "c_res", "mc", "mc_res"):
         base = base_build(sysd, workdir, box)
